@@ -209,7 +209,10 @@ theorem normTr_inst_nst (θ : Subst) {p : T} (h : instCommOK_nst p = true) : nor
     rw [← map_normSeg_instL_nst θ _ hgood, instL_append_nst]
     simp only [instL]
     rw [inst_angleSeg_nst]
-  | paren => rw [hs] at hg; cases hg
+  | paren y =>
+    -- excluded by the all-segments condition of `instCommOK_nst` (not by `wfPath`, which accepts `Fn(A) -> B`)
+    have := hsegs l (by rw [hsplit]; simp)
+    rw [hs] at this; cases this
   | bad => rw [hs] at hg; cases hg
 
 /-! ### The substitution `mkMember` computes is the one the search used -/
